@@ -12,10 +12,10 @@ import (
 )
 
 const (
-	e1Close = iota // client closes RPC 1
-	e1SoftCancel   // client soft-cancels RPC 1
-	e1RemoteError  // server fails RPC 1
-	e1Normal       // server half-closes, client closes
+	e1Close       = iota // client closes RPC 1
+	e1SoftCancel         // client soft-cancels RPC 1
+	e1RemoteError        // server fails RPC 1
+	e1Normal             // server half-closes, client closes
 	numE1
 )
 
@@ -228,7 +228,6 @@ func VerifH_ConcurrentCallers() {
 	conn.Close()
 }
 
-
 // gateEnc marshals a fixed request; Marshal of the request tagged slow parks until released.
 type gateEnc struct {
 	slowTag byte
@@ -305,7 +304,6 @@ func VerifH_ConcurrentInvokes() {
 	vrt.Cover("invokes-end")
 	conn.Close()
 }
-
 
 // VerifH_ManyMessages: a server-streaming response of n messages (one larger one followed
 // by small ones, as the manager's buffer-shrinking heuristic counts them) is received by
